@@ -175,7 +175,10 @@ def main():
                                 except Exception as e:      # recorded, not judged
                                     r['call_error'] = type(e).__name__
                             elif st['kind'] == 'modify':
-                                modify(fd, st)
+                                try:
+                                    modify(fd, st)
+                                except Exception as e:     # e.g. a read-only array: recorded, not judged
+                                    r['modify_error'] = type(e).__name__ + ': ' + str(e)[:200]
                                 r['snapshot'] = snapshot(fd)
                             else:
                                 data = st.get('data')
